@@ -296,6 +296,7 @@ inductive Event where
   | peerDown (p : Peer)
   | tick (e : Env)                                          -- cron: checkPendingBundles
   | restart                                                 -- process restart: metadata and CLAs gone
+  | loopback (block : Option Nat) (prev : Option Peer)      -- the bundle is received AGAIN while it is in the store
 deriving Repr, DecidableEq
 
 /-- The senders `forward` uses: direct delivery (`senderForDestination`) if the destination is
@@ -349,6 +350,12 @@ def prepare (s : Node) : Event → Node × Option Env
   | .peerDown p => ({ s with conn := s.conn.erase p }, none)
   | .tick e => (s, some e)
   | .restart => ({ s with md := none, conn := [] }, none)
+  -- `Core.receive` returns before `NotifyNewBundle` when the descriptor loaded from the store already
+  -- has constraints ("Received bundle's ID is already known"): the node's own bundle looped back by a
+  -- peer, or a relayed bundle arriving a second time, changes nothing — whatever BinarySprayBlock /
+  -- PreviousNodeBlock the duplicate carries. (The event stands for a reception while the bundle is
+  -- stored; the harness performs it only then.)
+  | .loopback _ _ => (s, none)
 
 def step (P : Params) (s : Node) (ev : Event) : Node :=
   match prepare s ev with
@@ -367,6 +374,12 @@ def stepComplete (P : Params) (s : Node) (ev : Event) : Bool :=
 def runComplete (P : Params) (s : Node) : List Event → Bool
   | [] => true
   | ev :: evs => stepComplete P s ev && runComplete P (step P s ev) evs
+
+/-- What the node would do if `receive` notified the algorithm also for a known bundle (the early
+return placed after `NotifyNewBundle`): the metadata is overwritten as for a new bundle. Only used
+for the witness `renotify_refills_budget_witness`. -/
+def loopbackRenotify (s : Node) (srcLocal : Bool) (block : Option Nat) (prev : Option Peer) : Node :=
+  { s with md := some (notify s.algo s.l ⟨srcLocal, block, prev⟩) }
 
 def Event.isEntry : Event → Bool
   | .submit _ => true
